@@ -50,6 +50,16 @@ def run(ctx):
         "implementation-side oracle `glue` only",
         "the float range constants of package num are read through a `//go:build verif` accessor injected by -overlay "
         "(go/overlay/c02_consts.go) and compared with the model's constants (line `consts`); /repo is not modified",
+        "AsFloat64 (sign and one-ulp clauses) is proved for all 2^128 values of both types over GoSem.F64: the three "
+        "roundings float64(hi), float64(lo), sum (nearest, ties to even; the product by 2^64 is exact) give a normal "
+        "float m*2^e with the value's sign and |m*2^e - x| <= 2^e, where `one unit in the last place` is the unit 2^e "
+        "of the *result* (equal to the unit of x's binade except when the result is rounded up to a power of two, "
+        "where it is twice that); the bound is attained up to 1 (hi = 2^53+1, lo = 2^64-1) and needs ties-to-even",
+        "FromString `rejects text that is not an integer`: for texts without e/E the accepted texts are proved to be "
+        "exactly the literals of a declarative grammar (Conv.IsPlainIntLiteral) with their denoted value; for texts "
+        "with e/E acceptance is proved equivalent to: no '/', and the transcribed big.Rat scanner reads a fraction n/d "
+        "whose exact value is the integer result. A declarative grammar of that mantissa/exponent scanner is NOT "
+        "proved (kept as C02.fromString_rejects_Statement); the scanner is compared with math/big on every run",
     ]
     ctx.assumptions += [
         "input texts are shorter than 2^31 bytes (the int64 arithmetic on digit counts in big.Rat.SetString does not wrap)",
